@@ -104,6 +104,11 @@ func (k Keeper) UpdateNSTBalance(
 						return true, err
 					}
 					slashShare := delegationAmount.UndelegatableShare.Mul(slashProportion)
+					// a delegation that doesn't hold any share (e.g. the record left by a full
+					// undelegation) has nothing to slash, skip it instead of failing the whole update.
+					if !slashShare.IsPositive() {
+						return false, nil
+					}
 					actualSlashAmount, err := k.RemoveShare(ctx, false, opAccAddr, stakerID, assetID, slashShare)
 					if err != nil {
 						return true, err
